@@ -12,7 +12,7 @@ def main():
     if len(sys.argv) > 3:
         os.environ["VERIF_SEED"] = sys.argv[3]
     chk = vlib.Check("C11dev", "quick")
-    stats = k2traits.run_traits(chk, n_tus, per)
+    stats = k2traits.run_traits(chk, n_tus, per, monitor=bool(os.environ.get("K2T_MONITOR")))
     print(json.dumps(stats, indent=1))
     for key, path, _, text in chk.violations:
         print("VIOLATION", key, path)
